@@ -35,3 +35,4 @@ META = dict(
     design_ref="DESIGN.md §4 C16",
     technique="CBMC bounded symbolic execution of real describe.c + split_line.c over all byte strings of bounded length, SAT",
 )
+META["text"] += ' The harness models the line reader (first newline ends the entry, one trailing CR is stripped); a newline inside a token is a recorded known finding.'
